@@ -10,6 +10,7 @@ import PhyVerif.Lemmas.Fl
 import PhyVerif.Model.C15c
 import PhyVerif.Spec.C15c
 import PhyVerif.Lemmas.C15c
+import PhyVerif.Lemmas.C15d
 /-!
 # C15 — correlograms count exactly the spike pairs in each lag bin
 Only property theorems + non-vacuity examples; proofs in `Lemmas/C15.lean`.
@@ -88,6 +89,15 @@ theorem firing_zero_of_empty (sc : List Int) (ids : List Nat) (bin : Rat) (dur :
     ((specFiringRate sc ids bin dur).getD i []).getD j 0 = 0 ∧
     ((specFiringRate sc ids bin dur).getD j []).getD i 0 = 0 :=
   Lemmas.firing_zero_of_empty sc ids bin dur i hi he j hj
+
+/-- … the same about what `firing_rate` RETURNS (the model of the code, not only the specification): for distinct caller
+ids containing every label and a positive bin, the call succeeds and the row and the column of an id without spikes are
+zero -/
+theorem firing_zero_of_empty_model (sc : List Int) (ids : List Nat) (bin : Rat) (dur : Option Rat)
+    (hdom : InDom sc ids) (hb : 0 < bin)
+    (i : Nat) (hi : i < ids.length) (he : Int.ofNat (ids.getD i 0) ∉ sc) (j : Nat) (hj : j < ids.length) :
+    ∃ m, firingRate sc (some ids) bin dur = some m ∧ (m.getD i []).getD j 0 = 0 ∧ (m.getD j []).getD i 0 = 0 :=
+  Lemmas.firing_zero_of_empty_model sc ids bin dur hdom hb i hi he j hj
 
 /-- `cluster_ids=None`: the ids are `_unique(spike_clusters)` — strictly increasing, exactly the labels in use —
 and for non-negative labels they are in the domain of every theorem above.  (A negative label, e.g. -1 for
@@ -212,16 +222,16 @@ returns exactly the SAMPLE-LEVEL pair counts for THOSE integers: entry (i, j, k)
 a in `ids[i]`, b in `ids[j]`, `⌊(s_b − s_a) / binsize⌋ = k`, k up to `winsize // 2` (symmetrised as `sym_*`
 describe).  No exactness hypothesis: decimal bins/windows (0.1 s / 2 s gives 21 bins because `fl(1.0/0.1) = 10`
 although the exact quotient of the two doubles is below 10), non-grid spike times, any rate.
-`FlDom` (every product/quotient zero or in the normal range of binary64, samples below 2^63) is the domain on
-which `roundDouble` IS the hardware's result and `astype(int64)` is defined; the proof does not need it
-(`roundDouble` is a total, monotone function), it delimits what the statement says about the real code.
+The statement is about the MODEL and holds for all inputs (`roundDouble` is a total, monotone function): it carries no
+`FlDom` hypothesis (an unused one was dropped).  `FlDom` (every product/quotient zero or in the normal range of binary64,
+rounded products below 2^63) is the domain on which `roundDouble` IS the hardware's result (`roundDouble_binary64`) and
+`astype(int64)` is defined (`samplesOfFl_int64`); the correspondence run judges the real code only there.
 Outside `FlDom`, observed on the real code: times `[0, 1e300]` at rate `1e10` — the product is `inf`, `astype(int64)`
 yields INT64_MIN with a RuntimeWarning and `ravel_multi_index` raises ValueError; times `[0, 1e-320, 3e-320]` at 1 kHz —
 subnormal products, all samples 0 (here the same as the model, not in general).
 The real code rejects (AssertionError): rate ≤ 0, decreasing times, a bin below one sample
 (`correlogramsFl_rejects`); times and labels of different lengths. -/
 theorem correlogramsFl_eq_spec (times : List Rat) (sc : List Int) (ids : List Nat) (rate bin window : Rat) (sym : Bool)
-    (_hdomF : FlDom times rate bin window)
     (hr : 0 < rate) (hsorted : times.Pairwise (· ≤ ·)) (hlen : sc.length = times.length) (hdom : InDom sc ids)
     (hb : 1 ≤ binsizeOfFl rate bin) :
     correlogramsFl times sc (some ids) rate bin window sym =
@@ -231,7 +241,6 @@ theorem correlogramsFl_eq_spec (times : List Rat) (sc : List Int) (ids : List Na
 
 /-- … with `cluster_ids=None` (non-negative labels): the same over the sorted distinct labels -/
 theorem correlogramsFl_default_ids (times : List Rat) (sc : List Int) (rate bin window : Rat) (sym : Bool)
-    (_hdomF : FlDom times rate bin window)
     (hr : 0 < rate) (hsorted : times.Pairwise (· ≤ ·)) (hlen : sc.length = times.length) (h : ∀ c ∈ sc, 0 ≤ c)
     (hb : 1 ≤ binsizeOfFl rate bin) :
     correlogramsFl times sc none rate bin window sym =
@@ -258,6 +267,12 @@ theorem correlogramsFl_rejects (times : List Rat) (sc : List Int) (ids : Option 
 theorem samplesOfFl_sorted (rate : Rat) (times : List Rat) (hr : 0 < rate) (hs : times.Pairwise (· ≤ ·)) :
     (samplesOfFl rate times).Pairwise (· ≤ ·) ∧ (samplesOfFl rate times).length = times.length :=
   ⟨Lemmas.samplesOfFl_sorted rate times hr hs, Lemmas.samplesOfFl_length rate times⟩
+
+/-- on `FlDom` every spike sample fits `int64` (`astype(np.int64)` is defined: the float it converts is below 2^63 in
+magnitude); this is what the `2^63` clause of `FlDom` is for -/
+theorem samplesOfFl_int64 (times : List Rat) (rate bin window : Rat) (h : FlDom times rate bin window) :
+    ∀ s ∈ samplesOfFl rate times, -2 ^ 63 < s ∧ s < 2 ^ 63 :=
+  Lemmas.samplesOfFl_int64 times rate bin window h
 
 /-- the number of bins is odd and at least 1 for EVERY window and bin (both are clipped to [1e-5, 1e5] s first):
 `winsize_bins = 2·half + 1` with `half = trunc(fl(fl(.5·w)/b)) ≥ 0` — the two asserts after ccg.py:131 never fail -/
@@ -319,6 +334,148 @@ example : FlExact (1/2) (3/2) [0, 0, 1, 3, 4] 2 where
 /-- on that input (GridOK and FlExact both hold, see above) the float model returns the seconds-level pair counts -/
 example : correlogramsFl [0, 0, 1/4, 3/4, 1] [7, 2, 7, 2, 7] (some [7, 5, 2]) 4 (1/2) (3/2) false =
     some (specSeconds [0, 0, 1/4, 3/4, 1] [7, 2, 7, 2, 7] [7, 5, 2] (1/2) 1) := by decide +kernel
+
+/-! ## Fourth part: the STATEMENT's counts for a bin that is not a whole number of samples (open known finding), the
+`int32` cells of the count array
+
+The statement counts by `⌊(t_b − t_a) / bin⌋` with the CALLER's bin, and the quantifier puts no condition on the bin.
+The code converts the bin to whole samples first (`binsize = int(sample_rate * bin_size)`, ccg.py:126).  When
+`rate · bin` is whole the two agree — that is `correlogramsQ_eq` above (`GridOK.binGrid`).  When it is not, the code
+returns the statement's counts for ANOTHER bin, `⌊rate · bin⌋ / rate` (`correlogramsQ_truncates`), while the number of
+bins is still derived from the caller's bin; the `example`s below exhibit the disagreement on the audit's input
+(1 kHz, bin 2.5 ms, samples 0, 3, 5, 9: code `[0, 2, 2]`, statement `[1, 2, 2]`).  The correspondence run evaluates
+`stmtSeconds` (= `specSeconds`, `stmtSeconds_eq`) and reports a real output that differs from it and equals the model
+of the code as the open known finding `bin_truncated_to_whole_samples`.
+Half window: the statement names "the half-window" and "2*half+1 bins" without saying how `half` comes from the window
+size; `half` is taken to be the code's `winsize_bins // 2` (`halfOf` / `halfOfFl`, `= ⌊window / (2·bin)⌋` for exact
+arithmetic, `winsize_spec`). -/
+
+/-- the array the driver evaluates (one floor per spike pair) is the statement's array `specSeconds`, for ALL inputs -/
+theorem stmtSeconds_eq (times : List Rat) (sc : List Int) (ids : List Nat) (bin : Rat) (half : Nat) :
+    stmtSeconds times sc ids bin half = specSeconds times sc ids bin half :=
+  Lemmas.stmtSeconds_eq times sc ids bin half
+
+/-- CHANGE OF UNITS.  The statement's counts do not depend on the unit of time: multiplying every spike time and the bin
+by the same non-zero factor leaves them unchanged.  With spike times on the sample grid (`time · rate = T`, whole) the
+statement in seconds with bin `bin` IS the statement on the sample numbers with the bin `rate · bin` samples — whole or
+not (this is the array the correspondence run compares the real output with when `rate · bin` is fractional) … -/
+theorem specSeconds_units (times : List Rat) (sc : List Int) (ids : List Nat) (rate bin : Rat) (half : Nat)
+    (hr : 0 < rate) :
+    specSeconds (times.map (· * rate)) sc ids (rate * bin) half = specSeconds times sc ids bin half ∧
+    ∀ T : List Int, T.length = times.length →
+      (∀ a, a < times.length → times.getD a 0 * rate = ((T.getD a 0 : Int) : Rat)) →
+      specSeconds times sc ids bin half = specSeconds (T.map fun (z : Int) => (z : Rat)) sc ids (rate * bin) half :=
+  ⟨Lemmas.specSeconds_scale times sc ids rate bin half (ne_of_gt hr),
+   fun T hlen h => Lemmas.specSeconds_onGrid times sc ids rate bin T half hr hlen h⟩
+
+/-- … and for a bin of a WHOLE number `B ≥ 1` of samples it is the sample-level pair count `specCcg` (integer floor
+division), the array every theorem of the first three parts is about -/
+theorem specSeconds_whole (T : List Int) (sc : List Int) (ids : List Nat) (B : Int) (half : Nat) (hB : 0 < B) :
+    specSeconds (T.map fun (z : Int) => (z : Rat)) sc ids (B : Rat) half = specCcg T sc ids B half :=
+  Lemmas.specSeconds_whole T sc ids B half hB
+
+/-- WHAT THE CODE COUNTS FOR ANY BIN (`GridOK` without its clause on the bin: `TimesOK`).  Spike times on the sample
+grid, bin and window inside the clipping interval, `rate · bin ≥ 1` but NOT necessarily whole: `binsize = ⌊rate · bin⌋`
+and the call returns the statement's counts for the bin `⌊rate · bin⌋ / rate` seconds — not for `bin` — up to the half
+window `⌊window / (2·bin)⌋` of the caller's bin.  When `rate · bin` is whole, `⌊rate · bin⌋ / rate = bin` and this is
+`correlogramsQ_eq`: the model of the code and the statement agree.  Otherwise they agree only on the inputs where no
+spike pair has `⌊Δ / ⌊q⌋⌋ ≠ ⌊Δ / q⌋` (Δ the lag in samples, q = rate · bin); the `example` below is one where they
+do not.  The real code behaves like the model there (observed: `[0, 2, 2]`), i.e. it violates the statement: open known
+finding `bin_truncated_to_whole_samples`. -/
+theorem correlogramsQ_truncates (times : List Rat) (sc : List Int) (ids : List Nat) (rate bin window : Rat)
+    (T : List Int) (g : TimesOK times rate bin window T)
+    (hsorted : times.Pairwise (· ≤ ·)) (hlen : sc.length = times.length) (hdom : InDom sc ids) (sym : Bool) :
+    binsizeOf rate bin = (rate * bin).floor ∧
+    correlogramsQ times sc (some ids) rate bin window sym =
+      some (if sym then symmetrize (specSeconds times sc ids (((rate * bin).floor : Rat) / rate) (halfOf window bin))
+            else specSeconds times sc ids (((rate * bin).floor : Rat) / rate) (halfOf window bin)) :=
+  Lemmas.correlogramsQ_truncates times sc ids rate bin window T g hsorted hlen hdom sym
+
+/-- THE SAME ON DOUBLES (the model the correspondence run executes).  Whatever the float product `rate · bin`
+(`binProdFl`) is, the float model counts with the bin `int(rate · bin)` = `truncInt (binProdFl rate bin)` samples: it
+returns the statement's counts ON THE SPIKE SAMPLES for that whole bin.  The correspondence run compares the real output
+with `specSeconds` on the float products for the bin `binProdFl rate bin` itself when that is not whole. -/
+theorem correlogramsFl_truncates (times : List Rat) (sc : List Int) (ids : List Nat) (rate bin window : Rat) (sym : Bool)
+    (hr : 0 < rate) (hsorted : times.Pairwise (· ≤ ·)) (hlen : sc.length = times.length) (hdom : InDom sc ids)
+    (hb : 1 ≤ binsizeOfFl rate bin) :
+    binsizeOfFl rate bin = truncInt (binProdFl rate bin) ∧
+    correlogramsFl times sc (some ids) rate bin window sym =
+      some (if sym then symmetrize (specSeconds ((samplesOfFl rate times).map fun (z : Int) => (z : Rat)) sc ids
+                                      ((binsizeOfFl rate bin : Int) : Rat) (halfOfFl window bin))
+            else specSeconds ((samplesOfFl rate times).map fun (z : Int) => (z : Rat)) sc ids
+                   ((binsizeOfFl rate bin : Int) : Rat) (halfOfFl window bin)) :=
+  Lemmas.correlogramsFl_truncates times sc ids rate bin window sym hr hsorted hlen hdom hb
+
+/-- THE `int32` CELLS.  The code's count array is `int32` (ccg.py:35-36), the model's counts are unbounded naturals.
+A cell counts spike pairs, so it is at most `n·(n−1)/2`: for at most 65 536 spikes every count of the model is below
+`2^31` and fits the code's cell, whatever the times and labels.  (65 537 equal times of one cluster already give
+2 147 516 416 ≥ 2^31; observed on the real code: 70 000 equal times return −1 845 002 296 without a warning.  The
+correspondence run generates at most 400 spikes; `correlogramsArr_eq` itself needs no bound because the model has no
+overflow.) -/
+theorem correlogramsArr_int32 (t : List Int) (sc : List Int) (ids : List Nat) (bin : Int) (half : Nat) (w : Int)
+    (hw : (w / 2).toNat = half) (hsorted : t.Pairwise (· ≤ ·)) (hb : 0 < bin) (hlen : sc.length = t.length)
+    (hdom : InDom sc ids) (hn : t.length ≤ 65536) :
+    ∃ c, correlogramsArr t sc ids bin w = some c ∧ ∀ i j k, get3 c i j k < 2 ^ 31 :=
+  Lemmas.correlogramsArr_int32 t sc ids bin half w hw hsorted hb hlen hdom hn
+
+/-! Non-vacuity / the finding.  Rate 1 kHz, bin 2.5 ms = 1/400 s, window 12.5 ms = 1/80 s (half window 2 bins), spikes at
+samples 0, 3, 5, 9 of one cluster. -/
+/-- the statement: lags 3, 5, 9, 2, 6, 4 samples over 2.5 samples → bins 1, 2, 3, 0, 2, 1 → `[1, 2, 2]` -/
+example : specSeconds [0, 3/1000, 5/1000, 9/1000] [0, 0, 0, 0] [0] (1/400) 2 = [[[1, 2, 2]]] ∧
+    stmtSeconds [0, 3/1000, 5/1000, 9/1000] [0, 0, 0, 0] [0] (1/400) 2 = [[[1, 2, 2]]] := by decide +kernel
+/-- the model of the code (and the real code): the counts for a 2-sample bin → `[0, 2, 2]`: they DISAGREE -/
+example : correlogramsQ [0, 3/1000, 5/1000, 9/1000] [0, 0, 0, 0] (some [0]) 1000 (1/400) (1/80) false =
+      some (specSeconds [0, 3/1000, 5/1000, 9/1000] [0, 0, 0, 0] [0] (2/1000) 2) ∧
+    specSeconds [0, 3/1000, 5/1000, 9/1000] [0, 0, 0, 0] [0] (2/1000) 2 = [[[0, 2, 2]]] ∧
+    correlogramsQ [0, 3/1000, 5/1000, 9/1000] [0, 0, 0, 0] (some [0]) 1000 (1/400) (1/80) false ≠
+      some (specSeconds [0, 3/1000, 5/1000, 9/1000] [0, 0, 0, 0] [0] (1/400) (halfOf (1/80) (1/400))) := by
+  decide +kernel
+/-- the input is in the domain of `correlogramsQ_truncates` (`⌊1000 · 1/400⌋ = 2`, `2 / 1000` s) and outside `GridOK`
+(`rate · bin = 5/2` is no integer) -/
+example : TimesOK [0, 3/1000, 5/1000, 9/1000] 1000 (1/400) (1/80) [0, 3, 5, 9] where
+  rate_pos := by decide +kernel
+  bin_lo := by decide +kernel
+  bin_hi := by decide +kernel
+  win_lo := by decide +kernel
+  win_hi := by decide +kernel
+  len := rfl
+  onGrid := by
+    intro a ha
+    have : a = 0 ∨ a = 1 ∨ a = 2 ∨ a = 3 := by simp at ha; omega
+    rcases this with rfl | rfl | rfl | rfl <;> decide +kernel
+  binPos := by decide +kernel
+example : ((1000 : Rat) * (1/400)).floor = 2 ∧ ((2 : Int) : Rat) / 1000 = 2/1000 ∧
+    ¬ ∃ B : Int, (1000 : Rat) * (1/400) = (B : Rat) := by
+  refine ⟨by decide +kernel, by decide +kernel, ?_⟩
+  rintro ⟨B, h⟩
+  have h2 : ((1000 : Rat) * (1/400)).den = ((B : Int) : Rat).den := by rw [h]
+  rw [Rat.den_intCast] at h2
+  revert h2
+  decide +kernel
+/-- change of units on that input: seconds with a 1/400 s bin = sample numbers with a 5/2-sample bin -/
+example : specSeconds ([0, 3, 5, 9].map fun (z : Int) => (z : Rat)) [0, 0, 0, 0] [0] (5/2) 2 = [[[1, 2, 2]]] := by
+  decide +kernel
+/-- the same input as doubles (0.003, 0.005, 0.009, bin 0.0025, window 0.0125 as the rationals they denote): the float
+product `1000 · 0.0025` is exactly 5/2, the float model returns `[0, 2, 2]`, the statement on the doubles `[1, 2, 2]` -/
+example : binProdFl 1000 (5764607523034235 / 2305843009213693952) = 5/2 ∧
+    binsizeOfFl 1000 (5764607523034235 / 2305843009213693952) = 2 ∧
+    correlogramsFl [0, 3458764513820541 / 1152921504606846976, 5764607523034235 / 1152921504606846976,
+        5188146770730811 / 576460752303423488] [0, 0, 0, 0] (some [0]) 1000
+        (5764607523034235 / 2305843009213693952) (7205759403792794 / 576460752303423488) false = some [[[0, 2, 2]]] ∧
+    stmtSeconds [0, 3458764513820541 / 1152921504606846976, 5764607523034235 / 1152921504606846976,
+        5188146770730811 / 576460752303423488] [0, 0, 0, 0] [0] (5764607523034235 / 2305843009213693952) 2 =
+      [[[1, 2, 2]]] := by decide +kernel
+example : firingRate [7, 2, 7] (some [7, 5, 2]) (1/2) (some 3) = some [[2/3, 0, 1/3], [0, 0, 0], [1/3, 0, 1/6]] ∧
+    Int.ofNat ([7, 5, 2].getD 1 0) ∉ [7, 2, 7] := by decide +kernel
+/-- 65 536 spikes: at most 2 147 450 880 pairs, below 2^31 = 2 147 483 648; 65 537: 2 147 516 416 -/
+example : 65536 * 65535 / 2 < 2 ^ 31 ∧ ¬ 65537 * 65536 / 2 < 2 ^ 31 := by decide
+/-- `FlDom` at its `2^63` edge (rate 1024): the product `2^62` is inside; `2^63` is outside, and so is `2^63 − 1`, which is
+below `2^63` but ROUNDS to it (the sample would not fit `int64`) -/
+example : FlDom [0, 1/4, 4503599627370496] 1024 (1/2) (3/2) ∧
+    samplesOfFl 1024 [0, 1/4, 4503599627370496] = [0, 256, 4611686018427387904] ∧
+    ¬ FlDom [0, 9007199254740992] 1024 (1/2) (3/2) ∧
+    ¬ FlDom [0, 9223372036854775807 / 1024] 1024 (1/2) (3/2) ∧
+    samplesOfFl 1024 [9223372036854775807 / 1024] = [9223372036854775808] := by decide +kernel
 
 end PhyVerif.C15
 
